@@ -275,7 +275,12 @@ async fn run(plan: Plan) -> Outcome {
         }
         // timers: only the reconnect timer is ever allowed to fire
         if !connection_open && !close_issued { tokio::time::advance(Duration::from_millis(5)).await; }
-        if idle_rounds > 40 { out.machinery.push(format!("no progress for 40 rounds (round {}, events {:?}, results {:?})", round, event_list, results.lock().unwrap())); break; }
+        if idle_rounds > 40 {
+            // the harness is deterministic (frozen clock, lock-step): a client that stops moving although the transport and the broker cooperate is stuck
+            let r = results.lock().unwrap().clone();
+            out.problem("client-stops-making-progress", format!("no progress for 40 harness rounds (round {}): events {:?}, results so far {:?}, unresolved operations remain although broker and transport cooperate", round, event_list, r));
+            break;
+        }
     }
     settle(&inner, &extra_activity).await;
 
